@@ -460,6 +460,51 @@ def h_decimal_literals_other_types(eng, tname):
     eng.prove(all(type(v) is ntype for v in (ureg._units["inch"].converter.scale, ureg._prefixes["cc"].converter.scale, ureg._contexts["cx"].defaults["n"], ureg._units["degA"].converter.offset)), f"{tname}:numeric-types-of-definitions")
 
 
+def h_group_chain(eng, path):
+    """'using' is transitive to any depth: A using B, B using C, C using D"""
+    sa, x = eng.real("sa"), eng.real("x")
+    eng.assume(sa > 0)
+    L = eng.lit
+    lines = ["m = [length]", "s = [time]", "@group D", f"    ud = {L(sa)} * m", "@end", "@group C using D", "    uc = 2 * m", "@end", "@group B using C", "    ub = 3 * m", "    tb = 5 * s", "@end",
+             "@group A using B", "    ua = 7 * m", "@end", "@system SA using A", "    ua", "@end", "@system SC using C", "    uc", "@end"]  # fmt: skip
+    if path == "lines":
+        ureg = pint.UnitRegistry(lines, non_int_type=eng.ntype, on_redefinition="raise")
+    elif path == "define":
+        ureg = pint.UnitRegistry(lines[:2], non_int_type=eng.ntype, on_redefinition="raise")
+        block = []
+        for ln in lines[2:]:
+            block.append(ln)
+            if ln == "@end":
+                ureg.define("\n".join(block))
+                block = []
+    else:
+        tmp = tempfile.mkdtemp(prefix="pv_c10g_")
+        try:
+            fn = os.path.join(tmp, "g.txt")
+            with open(fn, "w", encoding="utf-8") as f:
+                f.write("\n".join(lines) + "\n")
+            ureg = pint.UnitRegistry(fn, non_int_type=eng.ntype, on_redefinition="raise")
+        finally:
+            shutil.rmtree(tmp, ignore_errors=True)
+    P = eng.prove
+    P(set(ureg.get_group("D").members) == {"ud"}, f"group-chain:{path}:D")
+    P(set(ureg.get_group("C").members) == {"ud", "uc"}, f"group-chain:{path}:C")
+    P(set(ureg.get_group("B").members) == {"ud", "uc", "ub", "tb"}, f"group-chain:{path}:B-depth-2")
+    P(set(ureg.get_group("A").members) == {"ud", "uc", "ub", "tb", "ua"}, f"group-chain:{path}:A-depth-3")
+    P(set(ureg.get_system("SA").members) == {"ud", "uc", "ub", "tb", "ua"}, f"group-chain:{path}:system-over-A")
+    P(set(ureg.get_system("SC").members) == {"ud", "uc"}, f"group-chain:{path}:system-over-C")
+    if path != "define":  # (listings after define(): known finding K4)
+        P({str(u) for u in ureg.get_compatible_units("m", "A")} == {"ud", "uc", "ub", "ua"}, f"group-chain:{path}:compatible-in-A")
+        P({str(u) for u in ureg.get_compatible_units("m", "SA")} == {"ud", "uc", "ub", "ua"}, f"group-chain:{path}:compatible-in-system")
+    P(Eq(ureg.Quantity(x, "ud").to("ua").magnitude, x * sa / 7), f"group-chain:{path}:values")
+    try:
+        ureg.define("@group A2 using A2\n    uz = 9 * m\n@end")
+    except Exception:  # noqa: BLE001
+        P(True, f"group-chain:{path}:self-using-group-refused")
+    else:
+        P("uz" in ureg.get_group("A2").members and len(set(ureg.get_group("A2").members)) == 1, f"group-chain:{path}:self-using-group-has-only-its-own-units")
+
+
 _CHILD_CACHE = r"""
 import json, sys
 import pint
@@ -714,6 +759,8 @@ def cases(tier, seed):
     for path in ("file", "load_definitions", "define", "cache-cold", "cache-warm", "cache-import-edit", "cache-same-text-two-directories"):
         out.append(Case("H10.c", path, M, "h_loading_paths", {"path": path}, opts=opts, validate=1 if path in ("file", "load_definitions") else 0, weight=6.0))
     out.append(Case("H10.c", "cache-across-processes", M, "h_cache_across_processes", {}, kind="conc"))
+    for path in ("lines", "file", "define"):
+        out.append(Case("H10.a", f"group-chain:{path}", M, "h_group_chain", {"path": path}, opts=opts, validate=1))
     for kind in ILL_FORMED:
         out.append(Case("H10.e", kind, M, "h_ill_formed", {"kind": kind}, opts=opts, validate=1))
     for tname in ("float", "Decimal"):
